@@ -244,14 +244,20 @@ class Gen:
     def expr(self, role: str, allow_prefix: bool = True) -> dict:
         ch = self.ch
         if self.o.get("twins") and allow_prefix and self.twins and \
-                ch.coin(self.o["twins"]):
+                ch.coin(self.o["twins"] * (3 if role in (
+                    "omit", "switch") else 1)):
             cand = [t for t in self.twins if t[0] == role]
             if cand:
                 # the same expression text at a second position
                 return self._retwin(ch.pick(cand)[1])
         e = self._expr(role, allow_prefix)
-        if self.o.get("twins") and e["k"] in ("not", "exists", "string",
-                                              "python"):
+        # (guards whose value is kept in a variable of the generated code:
+        # also the bare form, so that two guards nested in one another are
+        # spelled alike and - by the plan - differ in value)
+        if self.o.get("twins") and (e["k"] in ("not", "exists", "string",
+                                               "python") or
+                                    (role in ("omit", "switch") and
+                                     e["k"] in ("P", "pyform"))):
             self.twins.append((role, e))
         return e
 
